@@ -83,8 +83,22 @@ func c07runHistory(rep *vh.Report, keyRaw []byte, key *frame.V2Key, hist []uint6
 	var offs []int
 	bad := map[int]bool{}
 	var bm c07model
+	// every fifth history: half way through, the application gives the live reader ANOTHER key (key rotation on the link) and
+	// the peer signs with it from then on. The window is the reader's: what was accepted before the rotation still counts
+	origKey := keyRaw
+	key2Raw := make([]byte, len(keyRaw))
+	for i := range keyRaw {
+		key2Raw[i] = keyRaw[i] ^ 0x5A
+	}
+	kc := -1
+	if len(hist)%5 == 3 && len(hist) >= 2 {
+		kc = len(hist) / 2
+	}
 	for hi, ent := range hist {
 		offs = append(offs, len(stream))
+		if hi == kc {
+			keyRaw = key2Raw
+		}
 		ts := ent &^ c07forged
 		if ent&c07forged == 0 && withDialect && bm.has && ts <= bm.newest && ts+c07window >= bm.newest && (hi+len(hist))%4 == 1 {
 			// a correctly signed frame inside the window and not newer than the newest accepted one, carrying a message of the
@@ -115,6 +129,9 @@ func c07runHistory(rep *vh.Report, keyRaw []byte, key *frame.V2Key, hist []uint6
 			variant = 3 // (a third of the histories: the link id follows the timestamp, one system)
 		}
 		w, ok := frames[ts<<2|variant]
+		if hi >= kc && kc >= 0 {
+			ok = false
+		}
 		if !ok {
 			s := &ref.FrameSpec{Version: 2, Incompat: 1, Signed: true, Seq: byte(ts), Sys: 1, Comp: 1, MsgID: 0x12345 ^ uint32(ts&0xFF), LinkID: byte(ts >> 3),
 				Payload: []byte{byte(ts), byte(ts >> 8), 7}, Timestamp: ts}
@@ -123,12 +140,13 @@ func c07runHistory(rep *vh.Report, keyRaw []byte, key *frame.V2Key, hist []uint6
 			}
 			s.Signature = ref.SignatureOfWire(keyRaw, ref.Serialize(s))
 			w = ref.Serialize(s)
-			if len(frames) < 8192 {
+			if len(frames) < 8192 && !(hi >= kc && kc >= 0) {
 				frames[ts<<2|variant] = w
 			}
 		}
 		stream = append(stream, w...)
 	}
+	keyRaw = origKey
 	guard(rep, "what=panic", func() interface{} { return hist }, func() {
 		var drw *dialect.ReadWriter
 		if withDialect {
@@ -156,6 +174,22 @@ func c07runHistory(rep *vh.Report, keyRaw []byte, key *frame.V2Key, hist []uint6
 		var m c07model
 		for i, ent := range hist {
 			ts := ent &^ c07forged
+			if i == kc {
+				var r0 *frame.Reader
+				switch x := rd.(type) {
+				case *frame.Reader:
+					r0 = x
+				case *frame.ReadWriter:
+					r0 = x.Reader
+				}
+				if r0 == nil {
+					rep.HarnessError(fmt.Sprintf("C07: no reader to rotate the key on (%T)", rd))
+					return
+				}
+				keyRaw = key2Raw
+				r0.InKey = mkKey(key2Raw)
+				rep.Count("keys_rotated_on_live_readers", 1)
+			}
 			if timeouts[i] {
 				fr, err := rd.Read()
 				var nerr net.Error
@@ -596,6 +630,28 @@ func TestC07(t *testing.T) {
 					rw.reset()
 					err := frw.WriteMessage(hbMsg)
 					return rw.all(), err
+				}, 50)
+				// a writer that routes and originates (deprecated options): signed frames dated ahead are FORWARDED through it with
+				// Write(), then it originates messages of its own - stamped with the local time
+				rw2 := &recWriter{}
+				fw2 := &frame.Writer{ByteWriter: rw2, DialectRW: drw, OutKey: key, OutVersion: frame.V2, OutSystemID: 1, OutSignatureLinkID: 4}
+				if err := fw2.Initialize(); err != nil {
+					t.Fatal(err)
+				}
+				for lid := 0; lid < 3; lid++ {
+					fr, _, st := ref.ParseAt(future(rf, ahead-uint64(2-lid), byte(lid)), 0)
+					if st != ref.ParseOK {
+						continue
+					}
+					if err := fw2.Write(toFrame(fr)); err == nil {
+						rep.Count("future_dated_frames_forwarded_before_originating", 1)
+					}
+				}
+				checkLink(fmt.Sprintf("writer-after-forwarding-future-frame-%d", ai), func(i int) ([]byte, error) {
+					hbMsg.CustomMode = uint32(i)
+					rw2.reset()
+					err := fw2.WriteMessage(hbMsg)
+					return rw2.all(), err
 				}, 50)
 			}
 			for ai, ahead := range aheads {
